@@ -96,7 +96,7 @@ def cases(tier, rng):
     for ch in range(16):
         out.append(RT([simple_track(entries=[[4, [["C", 4, ch, 1 + ch * 8]]], [4, [["A", 3, 15 - ch, 127], ["C", 4, ch, 1]]]])], tag="roundtrip:channel"))
     for instr in (None, 0, 1, 42, 127):
-        for name in ("", "Untitled", "a longer name 0123456789", "x" * 130):
+        for name in ("", "Untitled", "a longer name 0123456789", "x" * 130, "Strings (pad) ", " lead", "x\x00", "tab\t", "  ", "a  b "):
             out.append(RT([simple_track(instr=instr, name=name), simple_track(instr=None, name=name + "2", entries=[[1, None]])], tag="roundtrip:instrument+name"))
     out.append(RT([], tag="roundtrip:empty"))
     out.append(RT([["only", None, []]], tag="roundtrip:empty"))
